@@ -543,7 +543,13 @@ func genHostile(t *rapid.T, kind int, limit int64) (in []byte, how string, mutat
 		switch kind {
 		case 2:
 			claim := rapid.SampledFrom([]uint64{uint64(limit), uint64(limit) + 1, 1 << 20, 1<<31 - 1, 1 << 31, 1<<32 - 1}).Draw(t, "claim")
-			if rapid.Bool().Draw(t, "xerialBomb") {
+			variant := rapid.IntRange(0, 2).Draw(t, "snappyBomb")
+			if variant == 2 {
+				// a valid raw block: a few dozen bytes that expand to a long run
+				n := rapid.SampledFrom([]int{int(limit), int(limit) + 1, 2 * int(limit), 1 << 20}).Draw(t, "bombLen")
+				return refSnappyEncode(bytes.Repeat([]byte{byte(n)}, n)), "snappy-bomb", false
+			}
+			if variant == 0 {
 				// many chunks, each claiming up to the limit
 				k := rapid.IntRange(2, 6).Draw(t, "nChunks")
 				per := rapid.SampledFrom([]int{int(limit), int(limit)/2 + 1, int(limit) - 1, 1000}).Draw(t, "perChunk")
@@ -697,37 +703,40 @@ func FuzzDecompress(f *testing.F) {
 	}
 	f.Add(lz4BombFrame(2, fuzzLimit, 7), byte(2))
 	f.Add(zstdStreamFrame(make([]byte, fuzzLimit+1), 128<<10), byte(3))
-	f.Fuzz(func(t *testing.T, data []byte, sel byte) {
-		// Diagnosis aid: the go fuzzing engine kills a worker whose single execution takes
-		// more than 10 s of wall time (it then reports "fuzzing process hung or terminated
-		// unexpectedly") and discards the worker's stderr. With VERIF_FUZZ_TRACE=<dir> the
-		// input in flight is kept in <dir>/exec-<pid> and slow executions in <dir>/slow-*.
-		if d := os.Getenv("VERIF_FUZZ_TRACE"); d != "" {
-			fn := fmt.Sprintf("%s/exec-%d", d, os.Getpid())
-			os.WriteFile(fn, append([]byte{sel}, data...), 0o644)
-			st := time.Now()
-			defer func() {
-				if el := time.Since(st); el > time.Second {
-					os.WriteFile(fmt.Sprintf("%s/slow-%d-%d", d, os.Getpid(), el.Milliseconds()), append([]byte{sel}, data...), 0o644)
-				}
-				os.Remove(fn)
-			}()
-		}
-		kinds := []int{1, 2, 3, 4}
-		in := data
-		switch {
-		case sel < 4:
-			kinds = []int{int(sel) + 1}
-		case sel == 4:
-			kinds = []int{2}
-			in = append(append([]byte(nil), magics[2][1]...), data...)
-		}
-		for _, k := range kinds {
-			if _, _, viol := checkHostile(dec, in, k, fuzzLimit); viol != "" {
-				t.Fatalf("decoder=%s input=%x: %s", codecName[k], in, viol)
+	f.Fuzz(func(t *testing.T, data []byte, sel byte) { fuzzDecompressOne(t, dec, data, sel) })
+}
+
+func fuzzDecompressOne(t testing.TB, dec kgo.Decompressor, data []byte, sel byte) {
+	// Diagnosis aid only (never part of a verdict): the go fuzzing engine kills a worker
+	// whose single execution takes more than 10 s of wall time (it then reports "fuzzing
+	// process hung or terminated unexpectedly") and discards the worker's stderr. With
+	// VERIF_FUZZ_TRACE=<dir> the input in flight is kept in <dir>/exec-<pid> and slow
+	// executions in <dir>/slow-*.
+	if d := os.Getenv("VERIF_FUZZ_TRACE"); d != "" {
+		fn := fmt.Sprintf("%s/exec-%d", d, os.Getpid())
+		os.WriteFile(fn, append([]byte{sel}, data...), 0o644)
+		st := time.Now()
+		defer func() {
+			if el := time.Since(st); el > time.Second {
+				os.WriteFile(fmt.Sprintf("%s/slow-%d-%d", d, os.Getpid(), el.Milliseconds()), append([]byte{sel}, data...), 0o644)
 			}
+			os.Remove(fn)
+		}()
+	}
+	kinds := []int{1, 2, 3, 4}
+	in := data
+	switch {
+	case sel < 4:
+		kinds = []int{int(sel) + 1}
+	case sel == 4:
+		kinds = []int{2}
+		in = append(append([]byte(nil), magics[2][1]...), data...)
+	}
+	for _, k := range kinds {
+		if _, _, viol := checkHostile(dec, in, k, fuzzLimit); viol != "" {
+			t.Fatalf("decoder=%s input=%x: %s", codecName[k], in, viol)
 		}
-	})
+	}
 }
 
 var fuzzCompressors = map[[2]prefItem]kgo.Compressor{}
@@ -742,42 +751,46 @@ func FuzzRoundTrip(f *testing.F) {
 		f.Add(x, byte(4), int16(3), true)
 	}
 	f.Fuzz(func(t *testing.T, x []byte, sel byte, level int16, disable bool) {
-		first := prefItem{Kind: 1 + int(sel)%4, SetLevel: level != 0, Level: int(level)}
-		if first.Kind == 3 && level > 0 && level <= 9 {
-			first.Level = 1 << (8 + uint(level)) // reach the valid lz4 levels too
-		}
-		prefs := []prefItem{first, {Kind: 1 + int(sel>>2)%4}}
-		// compressors are kept per preference list: building a zstd encoder per execution
-		// costs megabytes of cleared tables, and the fuzzing engine treats an execution
-		// that is slow on a busy machine (10 s) as a crash
-		key := [2]prefItem{prefs[0], prefs[1]}
-		comp := fuzzCompressors[key]
-		if comp == nil {
-			var err error
-			comp, err = kgo.DefaultCompressor(prefs[0].codec(), prefs[1].codec())
-			if err != nil || comp == nil {
-				t.Fatalf("DefaultCompressor(%v) = %v, %v", prefs, comp, err)
-			}
-			if len(fuzzCompressors) < 256 {
-				fuzzCompressors[key] = comp
-			}
-		}
-		var flags []kgo.CompressFlag
-		if disable {
-			flags = append(flags, kgo.CompressDisableZstd)
-		}
-		want := modelUse(modelOptions(prefs), disable)
-		out, ct := comp.Compress(new(bytes.Buffer), x, flags...)
-		if int(ct) != want.Kind {
-			t.Fatalf("prefs=%v disable=%v: reported codec %d, want %d", prefs, disable, ct, want.Kind)
-		}
-		cbytes := append([]byte(nil), out...)
-		got, err := dec.Decompress(cbytes, ct)
-		if err != nil || !bytes.Equal(got, x) {
-			t.Fatalf("prefs=%v disable=%v payload=%x: round trip failed: err=%v %s", prefs, disable, x, err, firstDiff(got, x))
-		}
-		if ind, have, err := independentDecode(want.Kind, cbytes, len(x)); have && (err != nil || !bytes.Equal(ind, x)) {
-			t.Fatalf("prefs=%v payload=%x: independent %s decoder: err=%v %s", prefs, x, codecName[want.Kind], err, firstDiff(ind, x))
-		}
+		fuzzRoundTripOne(t, dec, x, sel, level, disable)
 	})
+}
+
+func fuzzRoundTripOne(t testing.TB, dec kgo.Decompressor, x []byte, sel byte, level int16, disable bool) {
+	first := prefItem{Kind: 1 + int(sel)%4, SetLevel: level != 0, Level: int(level)}
+	if first.Kind == 3 && level > 0 && level <= 9 {
+		first.Level = 1 << (8 + uint(level)) // reach the valid lz4 levels too
+	}
+	prefs := []prefItem{first, {Kind: 1 + int(sel>>2)%4}}
+	// compressors are kept per preference list: building a zstd encoder per execution
+	// costs megabytes of cleared tables, and the fuzzing engine treats an execution
+	// that is slow on a busy machine (10 s) as a crash
+	key := [2]prefItem{prefs[0], prefs[1]}
+	comp := fuzzCompressors[key]
+	if comp == nil {
+		var err error
+		comp, err = kgo.DefaultCompressor(prefs[0].codec(), prefs[1].codec())
+		if err != nil || comp == nil {
+			t.Fatalf("DefaultCompressor(%v) = %v, %v", prefs, comp, err)
+		}
+		if len(fuzzCompressors) < 256 {
+			fuzzCompressors[key] = comp
+		}
+	}
+	var flags []kgo.CompressFlag
+	if disable {
+		flags = append(flags, kgo.CompressDisableZstd)
+	}
+	want := modelUse(modelOptions(prefs), disable)
+	out, ct := comp.Compress(new(bytes.Buffer), x, flags...)
+	if int(ct) != want.Kind {
+		t.Fatalf("prefs=%v disable=%v: reported codec %d, want %d", prefs, disable, ct, want.Kind)
+	}
+	cbytes := append([]byte(nil), out...)
+	got, err := dec.Decompress(cbytes, ct)
+	if err != nil || !bytes.Equal(got, x) {
+		t.Fatalf("prefs=%v disable=%v payload=%x: round trip failed: err=%v %s", prefs, disable, x, err, firstDiff(got, x))
+	}
+	if ind, have, err := independentDecode(want.Kind, cbytes, len(x)); have && (err != nil || !bytes.Equal(ind, x)) {
+		t.Fatalf("prefs=%v payload=%x: independent %s decoder: err=%v %s", prefs, x, codecName[want.Kind], err, firstDiff(ind, x))
+	}
 }
